@@ -559,10 +559,15 @@ Definition t_parse_body (oripemd : bool) (tag v : N) (st : rdr) : cres (tpacket 
   else tick (Grow sizeof_userattr) (lift_parse TAttr (t_parse_userattr st)).
 
 (* what packet.Read returns for the result of a parser: io.EOF out of a parser ends the stream for
-   Reader.Next like the end of the input; on an error the rest of the packet is consumed *)
+   Reader.Next like the end of the input; the rest of the packet is consumed in every case *)
 Definition t_finish (l1 : log) (parsed : cres (tpacket * rdr)) : cost (tres * bytes) :=
   match parsed with
-  | (Ok (p, st'), l2) => ((TOk p, rdr_pos st'), l1 ++ l2)
+  | (Ok (p, st'), l2) =>
+      (* packet.go: a packet that is not handed out as a stream ends where its length says: the
+         octets the parser did not need are consumed (consumeAll); when the body ends before the
+         announced length the packet is an error *)
+      let '((_, ok, st2), l3) := rd_all st' in
+      ((if ok then TOk p else TFail "unexpected EOF", if ok then rdr_pos st2 else []), l1 ++ l2 ++ l3 ++ [Make 1024 0])
   | (Err e, l2) => ((if String.eqb e "EOF" then TEnd else TFail e, []), l1 ++ l2 ++ [Make 1024 0])   (* consumeAll *)
   | (Panic e, l2) => ((TFail e, []), l1 ++ l2)
   end.
